@@ -19,7 +19,7 @@ ALL_STATUS_REQUESTS = ["requested", "scheduled", "delayed", "running", "pausing"
 DEFAULT_FAULTS = dict(
     p_fail=None,            # None: drawn per run
     pause=0.0, resume_early=0.0, cancel=0.0, bad_request=0.0, restart=0.0, dup=0.0, poll_skip=0.0,
-    poll_twice=0.0, rerun=0.0, eval_fault=0.0, act_canceled=0.5, act_timeout=0.2, act_abandoned=0.1,
+    poll_twice=0.0, rerun=0.0, eval_fault=0.0, act_canceled=0.5, act_canceling=0.4, act_timeout=0.2, act_abandoned=0.1,
     slow_branch=0.3, suffix_requests=0.0, pending=0.0, mark_running=0.3,
 )
 
@@ -255,6 +255,10 @@ class Scheduler(object):
             self.do(["request", self.K.choice(["resuming", "running"], "fault", "rkind", self.pos)])
         if not w.cancel_req and self.coin("cancel"):
             self.do(["request", self.K.choice(["canceling", "canceling", "canceled"], "fault", "ckind", self.pos)])
+            if w.cancel_req:
+                for aid in sorted(w.inflight):
+                    if self.K.u("fault", "ack_cancel", aid) < self.f.get("act_canceling", 0.4):
+                        self.heap.push(self.heap.now + 0.01 * (1 + self.K.below(5, "fault", "ackd", aid)), ("mark", aid, "canceling"))
         if self.coin("bad_request"):
             # `succeeded` is the one status the table lets a caller force on a running workflow;
             # forcing it is not a pause/resume/cancel request and no property speaks about it
@@ -324,7 +328,7 @@ class Scheduler(object):
             at, seq, ev = self.heap.pop()
             self.pos += 1
             if ev[0] == "mark":
-                self.do(["mark", ev[1], "running"])
+                self.do(["mark", ev[1], ev[2] if len(ev) > 2 else "running"])
                 continue
             if ev[0] == "dup":
                 self.do(["dup", ev[1]])
@@ -336,7 +340,8 @@ class Scheduler(object):
                 continue
             x = a["x"]
             status, result = self.outcome_for(a)
-            if w.cancel_req and self.K.u("cancel_outcome", aid) < self.f["act_canceled"]:
+            if w.cancel_req and (a["state"] == "canceling" and status == "succeeded"
+                                 or self.K.u("cancel_outcome", aid) < self.f["act_canceled"]):
                 status = "canceled"    # keeps the payload shape of the task
                 self.stats["fault_act_canceled"] = self.stats.get("fault_act_canceled", 0) + 1
             if status != "succeeded" and status != "canceled":
